@@ -2,7 +2,7 @@
 
     Models: XmlDefs / EntTreeDefs / PrintDefs / LoadDefs / RoundtripSpec (C02: trees, entity model, Printer::printModel, the
     CellML 2.0 paths of Parser::parseModel, canon / printable / content_eq), Load1xDefs ([load1x]: the mParsing1XVersion
-    paths of src/parser.cpp and the MathML namespace rewriting at tree level), To1xDefs ([to1x v ist cm us hoist E m]: the
+    paths of src/parser.cpp and the MathML namespace rewriting at tree level), To1xDefs ([to1x v ist cm us hoist mcpos rrpos E m]: the
     mechanical rewriting of the printed 2.0 document into 1.0 / 1.1 syntax; [conv_ok]; [expressible_1x]).
 
     Flags of [load1x E fx fi fd strict]: fx = fix C02-crossed-map-variables (already in /repo), fi = fix C14-interface-none,
@@ -10,8 +10,9 @@
     the flags unless it names one.  The environment [E] (15-digit printing, strtod, libxml2's serialisation of a math
     element) is universally quantified, as in C02.
     The style of the rewriting — which of in / out is written, the order of public_interface / private_interface,
-    explicit "none" ([ist], any function of the variable's attributes), cmeta:id or id ([cm]), liter / meter ([us]) — is
-    universally quantified; [style_ok ist fi] = explicit "none" is only written for the repaired parser. *)
+    explicit "none" ([ist], any function of the variable's attributes), cmeta:id or id ([cm]), liter / meter ([us]), the
+    position of map_components among the map_variables of a connection ([mcpos]) and of relationship_ref among the
+    component_ref children of a group ([rrpos]: the 1.x specifications fix no order) — is universally quantified; [style_ok ist fi] = explicit "none" is only written for the repaired parser. *)
 From Coq Require Import String Ascii List Bool ZArith Permutation.
 From LC Require Import Common NumDefs XmlDefs EntTreeDefs PrintDefs LoadDefs RoundtripSpec Load1xDefs To1xDefs
      RoundtripEncProofs TransformSimProofs TransformProofs TransformHoistProofs Load1xProofs Drop1xSpec Drop1xProofs
@@ -26,47 +27,47 @@ Local Open Scope list_scope.
 (** the core: for EVERY document of the printer's vocabulary without resets ([conv_ok]: any attribute order, any values,
     imports, encapsulation, connections, MathML) the permissive parser applied to its 1.x rewriting returns the model the
     strict 2.0 parser returns on the document itself, with the same issues after the one transformation message *)
-Theorem C14_simulation : forall E fx fi fd v ist cm us t, style_ok ist fi -> conv_ok t = true -> namespace_issues t = [] ->
-  load1x E fx fi fd false (conv1x v ist cm us false t) = (fst (load E fx true t), msg :: snd (load E fx true t)).
+Theorem C14_simulation : forall E fx fi fd v ist cm us mcpos rrpos t, style_ok ist fi -> conv_ok t = true -> namespace_issues t = [] ->
+  load1x E fx fi fd false (conv1x v ist cm us false mcpos rrpos t) = (fst (load E fx true t), msg :: snd (load E fx true t)).
 Proof. intros. now apply TransformSimProofs.sim_load. Qed.
 Print Assumptions C14_simulation.
 
 (** hence for every printable, expressible model — ALL features: connections and 1.1 imports included — the 1.x
     rewriting is read exactly as the 2.0 print is read *)
-Theorem C14_transform_as_20 : forall E fx fi fd v ist cm us hoist m, style_ok ist fi -> printable E true m -> expressible_1x E v m ->
-  load1x E fx fi fd false (to1x v ist cm us hoist E m)
+Theorem C14_transform_as_20 : forall E fx fi fd v ist cm us hoist mcpos rrpos m, style_ok ist fi -> printable E true m -> expressible_1x E v m ->
+  load1x E fx fi fd false (to1x v ist cm us hoist mcpos rrpos E m)
   = (fst (load E fx true (print_tree E m)), msg :: snd (load E fx true (print_tree E m))).
 Proof. intros. now apply TransformHoistProofs.transform_as_20_h. Qed.
 Print Assumptions C14_transform_as_20.
 
 (** stage flat: the transformed model is EXACTLY canon m, the only issue is the transformation message *)
-Theorem C14_transform_roundtrip_flat : forall E fx fi fd v ist cm us hoist m, style_ok ist fi -> printable E true m ->
+Theorem C14_transform_roundtrip_flat : forall E fx fi fd v ist cm us hoist mcpos rrpos m, style_ok ist fi -> printable E true m ->
   expressible_1x E v m -> flat m = true ->
-  load1x E fx fi fd false (to1x v ist cm us hoist E m) = (canon E m, [msg]).
+  load1x E fx fi fd false (to1x v ist cm us hoist mcpos rrpos E m) = (canon E m, [msg]).
 Proof. intros. now apply TransformHoistProofs.transform_flat_h. Qed.
 Print Assumptions C14_transform_roundtrip_flat.
 
 (** stage encapsulation (groups / relationship_ref / component_ref of any depth, cmeta:id on component_ref) *)
-Theorem C14_transform_roundtrip_encapsulation_exact : forall E fx fi fd v ist cm us hoist m, style_ok ist fi -> printable E true m ->
+Theorem C14_transform_roundtrip_encapsulation_exact : forall E fx fi fd v ist cm us hoist mcpos rrpos m, style_ok ist fi -> printable E true m ->
   expressible_1x E v m -> no_imports m = true -> no_connections m = true ->
-  load1x E fx fi fd false (to1x v ist cm us hoist E m)
+  load1x E fx fi fd false (to1x v ist cm us hoist mcpos rrpos E m)
   = ({| m_name := m_name m; m_id := m_id m; m_encid := m_encid m; m_units := map (canon_units E) (m_units m);
         m_comps := map (canon_comp E) (enc_order (m_comps m)); m_eqv := [] |}, [msg]).
 Proof. intros. now apply TransformHoistProofs.transform_encapsulation_exact_h. Qed.
 Print Assumptions C14_transform_roundtrip_encapsulation_exact.
 
 (** transform_roundtrip as stated in the design, on the fragment C02's round trip reaches (no imports, no connections) *)
-Theorem C14_transform_roundtrip_partial : forall E fx fi fd v ist cm us hoist m, style_ok ist fi -> printable E true m ->
+Theorem C14_transform_roundtrip_partial : forall E fx fi fd v ist cm us hoist mcpos rrpos m, style_ok ist fi -> printable E true m ->
   expressible_1x E v m -> no_imports m = true -> no_connections m = true ->
-  exists m' is, load1x E fx fi fd false (to1x v ist cm us hoist E m) = (m', is)
+  exists m' is, load1x E fx fi fd false (to1x v ist cm us hoist mcpos rrpos E m) = (m', is)
                 /\ content_eq m' (canon E m) /\ Forall (fun i => is_message i = true) is.
 Proof. intros. now apply TransformHoistProofs.transform_roundtrip_h. Qed.
 Print Assumptions C14_transform_roundtrip_partial.
 
 (** component-level units ([hoist = true]: the units elements before the first component element are written inside it):
     loadUnitsFromComponent brings them back, the parser answers exactly as without the move *)
-Theorem C14_component_level_units : forall E fx fi fd v ist cm us m, style_ok ist fi -> printable E true m -> expressible_1x E v m ->
-  load1x E fx fi fd false (to1x v ist cm us true E m) = load1x E fx fi fd false (to1x v ist cm us false E m).
+Theorem C14_component_level_units : forall E fx fi fd v ist cm us mcpos rrpos m, style_ok ist fi -> printable E true m -> expressible_1x E v m ->
+  load1x E fx fi fd false (to1x v ist cm us true mcpos rrpos E m) = load1x E fx fi fd false (to1x v ist cm us false mcpos rrpos E m).
 Proof. intros. now apply TransformHoistProofs.transform_hoist. Qed.
 Print Assumptions C14_component_level_units.
 
@@ -76,8 +77,8 @@ Proof. intros. eapply TransformProofs.print_tree_conv_ok; eassumption. Qed.
 Print Assumptions C14_print_tree_conv_ok.
 
 (* NOT PROVED:
-   transform_roundtrip : forall E fx fi fd v ist cm us m, style_ok ist fi -> printable E true m -> expressible_1x E v m ->
-     exists m' is, load1x E fx fi fd false (to1x v ist cm us hoist E m) = (m', is)
+   transform_roundtrip : forall E fx fi fd v ist cm us mcpos rrpos m, style_ok ist fi -> printable E true m -> expressible_1x E v m ->
+     exists m' is, load1x E fx fi fd false (to1x v ist cm us hoist mcpos rrpos E m) = (m', is)
                    /\ content_eq m' (canon E m) /\ Forall (fun i => is_message i = true) is
    for models WITH connections or imports.  C14_transform_as_20 reduces it, for all features, to C02's round trip
    "load (print_tree m) = (m', []) /\ content_eq m' (canon m)", whose stages 4 (connections) and 5 (imports) are not
@@ -87,8 +88,8 @@ Print Assumptions C14_print_tree_conv_ok.
    what the parser does with component-level units in any document is C14_component_units_hoisted. *)
 
 (** * strict_refuses *)
-Theorem C14_strict_refuses : forall E fx fi fd v ist cm us hoist m,
-  load1x E fx fi fd true (to1x v ist cm us hoist E m) = (empty_model, [(LError, "XML_UNEXPECTED_ELEMENT")]).
+Theorem C14_strict_refuses : forall E fx fi fd v ist cm us hoist mcpos rrpos m,
+  load1x E fx fi fd true (to1x v ist cm us hoist mcpos rrpos E m) = (empty_model, [(LError, "XML_UNEXPECTED_ELEMENT")]).
 Proof. intros. apply TransformProofs.strict_refuses. Qed.
 Print Assumptions C14_strict_refuses.
 
